@@ -61,7 +61,7 @@ ASSUMPTIONS = [
     "gauge: Gaussian observation models (diagonal / scalar) and the Weibull event model; Bernoulli/ordinal attachment "
     "not covered; the State is the fit State layout (xi, tau of shape (n,1), float32 as left by the samplers or float64 "
     "as left by put_individual_latent_variables(df=...)), automatic forking off as in the maximisation step",
-    "gauge tolerances: d(model) <= 24*eps32*(2+|xi|+|log_v0|+2|m|)*|metric*v0*alpha*(t-tau)|*slope + 8*eps32*(1+|model|); "
+    "gauge tolerances: d(model) <= 32*eps32*(2+|xi|+|log_v0|+2|m|)*|metric*v0*alpha*(t-tau)|*slope + 12*eps32*(1+|model|); "
     "attachment and event tolerances are these propagated through the Gaussian / Weibull formulas in float64; a dropped "
     "or mis-signed compensation is >= 3 orders of magnitude larger on every non-trivial case",
     "ortho/basis tolerance: |<row, G d>| <= 1e-5 * (sum_i |beta_ij| |q_i|) * |G d| (float32 Householder, dimension <= 4)",
@@ -281,8 +281,8 @@ def _gauge_tolerances(kind, v):
         slope = 1.0 if kind == "linear" else 0.25
         dt = (v["t"] - v["tau"].reshape(n, 1))[:, :, None]
         P = metric[None, None, :] * np.exp(log_v0)[None, None, :] * np.exp(xi)[:, None, None] * dt
-        rel = 24 * EPS32 * (2 + np.abs(xi)[:, None, None] + np.abs(log_v0)[None, None, :] + 2 * m)
-        out["model"] = rel * np.abs(P) * slope + 8 * EPS32 * (1 + np.abs(v["model"]))
+        rel = 32 * EPS32 * (2 + np.abs(xi)[:, None, None] + np.abs(log_v0)[None, None, :] + 2 * m)
+        out["model"] = rel * np.abs(P) * slope + 12 * EPS32 * (1 + np.abs(v["model"]))
     # Gaussian attachment: sum_k 0.5 r^2/s^2 + log s + 0.5 log 2 pi  over observed entries
     w = v["y_w"]
     sig = np.broadcast_to(v["noise_std"].reshape(1, 1, -1), v["model"].shape)
@@ -301,7 +301,7 @@ def _gauge_tolerances(kind, v):
         s0 = np.clip(v["event"].min() - v["tau"].reshape(n), 0.0, None)
         H0 = (s0 / nu_r) ** rho
         delta = v["event_w"].reshape(n).astype(float)
-        rel_ev = 24 * EPS32 * (2 + np.abs(xi) + abs(nln) + np.abs(shift / rho) + 2 * m)
+        rel_ev = 32 * EPS32 * (2 + np.abs(xi) + abs(nln) + np.abs(shift / rho) + 2 * m)
         out["event_ind"] = rel_ev * rho * (H + delta) + 1e-9
         out["pred_rel"] = rel_ev * rho * (H + H0) + 1e-6
     return out
@@ -825,9 +825,13 @@ def run_shard(shard):
             if not acc.samples:  # one written-out case per shard
                 acc.sample({"case": case, "outcome": res["outcome"]})
         for name, r in res.get("ratios", {}).items():
-            # observed |difference| / tolerance, binned (evidence of the margin on the unchanged tree)
-            b = "<=0.01" if r <= 0.01 else "<=0.1" if r <= 0.1 else "<=0.5" if r <= 0.5 else "<=1" if r <= 1 else ">1"
-            acc.count(f"margin {shard['part']}.{name} {b}")
+            # observed |difference| / tolerance: evidence of the margin (only the upper bins are itemised, per kind)
+            if r > 0.1:
+                b = "<=0.5" if r <= 0.5 else "<=1" if r <= 1 else ">1"
+                kind = case["spec"]["kind"] if "spec" in case else "direct"
+                acc.count(f"margin {shard['part']}.{kind}.{name} {b}")
+            else:
+                acc.count(f"margin {shard['part']} any <=0.1")
         for sig, msg, exp, obs in res["violations"]:
             acc.violation(sig, msg, case, exp, obs)
     return acc.to_dict()
